@@ -44,8 +44,8 @@ def run(s):
                 r.witness_id = name + ":nonfinite"
             return r
         return ob
-    s.oblige("C12.Q1_finite_for_all_Q", bose("Q1", lambda q: z3.RealVal(1)), [NS + "Q1"])
-    s.oblige("C12.Q2_finite_for_all_Q", bose("Q2", lambda q: (1 + q) * (1 + q)), [NS + "Q2"])
+    s.oblige("C12.Q1_finite_for_all_Q", bose("Q1", lambda q: z3.RealVal(1)), [NS + "Q1"], fallback=lambda: dict(native_bose(ns, "Q1", None), evaluations=13))
+    s.oblige("C12.Q2_finite_for_all_Q", bose("Q2", lambda q: (1 + q) * (1 + q)), [NS + "Q2"], fallback=lambda: dict(native_bose(ns, "Q2", None), evaluations=13))
 
     def old_q2():
         XF.exps = []
